@@ -191,6 +191,15 @@ CLAIMED = {
         technique='symbolic execution of real methods with inlined class hierarchy (pyvc + pyclass) -> z3; loop-invariant contract; induction-step lemma',
         design_ref='7/C13',
     ),
+    'C27': dict(
+        text='exception_log_level_if_retryable: result truthy exactly for InternalError 1205 and OperationalError 1213/2013/2003/1040, None otherwise (truthiness matters: it is tested with `if loglevel := ...`). '
+        'retry_transient_mysql_errors.wrapper: loop contract for every number of earlier failures - f is re-run (after sleep_before_try(failures)) iff it raised an Exception the classifier accepts; anything else is re-raised unchanged at once; value returned unchanged. '
+        'transaction(...).wrapper and six Database convenience methods: decorated by the retry loop as a whole; the body opens one db.start(read_only) context, makes exactly one call inside it with that transaction, nothing else; with-protocol modelled with failing enter/exit. '
+        'Transaction._aexit_1: rollback-and-never-commit on an exception type, commit-and-never-rollback otherwise, connection dropped and release scheduled once on every path including failing commit/rollback; _aexit / __aexit__ forward the exception type; async_init starts the transaction once with the right statement, releases on failure.',
+        note=COMMON_NOTE + 'Atomicity itself (ROLLBACK discards writes) is the assumed contract of MySQL. The async-generator helpers execute_and_fetchall / select_and_fetchall are not retried (listed as undecided). Exceptions are abstract values with uninterpreted isinstance predicates; .args[0] is the error number.',
+        technique='loop-invariant + with-protocol contracts on the real functions, pyvc -> z3; decorator structure by AST obligations',
+        design_ref='7/C27',
+    ),
 }
 
 NOT_YET = 'not yet brought within the verifier\'s reach in this build (planned in DESIGN.md section 7); no claim is made'
